@@ -297,7 +297,7 @@ func main() {
 	run := vk.Start("C14", "model_checking")
 	defs := enumerate(run.Thorough())
 	dbound, pbound := 2, 1
-	maxExec := int64(20000)
+	maxExec := int64(6000)
 	if run.Thorough() {
 		dbound, pbound = 3, 1
 		maxExec = 400000
@@ -366,7 +366,7 @@ func main() {
 	// ---- data-race pass (plan A, DESIGN §0.2): the same scenarios in a -race build under the
 	// controlled scheduler whose hand-offs are invisible to the race detector ----
 	if bin := os.Getenv("VERIF_RACE_BIN"); bin != "" {
-		rbound, rmax := 1, int64(400)
+		rbound, rmax := 1, int64(150)
 		if run.Thorough() {
 			rbound, rmax = 2, 20000
 		}
